@@ -43,14 +43,16 @@ class ConclusionSelector(LogicalBinaryOperator, ABC):
         """
         if not conclusions:
             return
-        required_vars = HashedIterable()
-        for conclusion in conclusions:
-            vars_ = conclusion._unique_variables_.filter(
-                lambda v: not isinstance(v.value, Literal)
-            )
-            required_vars.update(vars_)
+        # what a conclusion is made from is every expression below it that has a value in these bindings - the element a
+        # flatten() picked as much as the variable it was picked from - not only the variables at the leaves
+        required_ids = {
+            node._id_
+            for conclusion in conclusions
+            for node in conclusion._descendants_
+            if not isinstance(node, Literal)
+        }
         required_output = {
-            k: v for k, v in output.bindings.items() if k in required_vars
+            k: v for k, v in output.bindings.items() if k in required_ids
         }
         # the same bindings can trigger the conclusions of several branches (next_rule), so remember which
         # conclusions were produced for them and not only that some were
